@@ -666,14 +666,12 @@ func (f *Frame) rangeNext(x *ssa.Next, st *State, reach string) {
 	f.vals[x] = Val{Tuple: []Val{{Sort: "Bool", Term: ok}, {Sort: kv[0], Term: key}, {Sort: kv[1], Term: val}}}
 }
 
-var iterCells = map[ssa.Value]*Cell{}
-
 func (f *Frame) iterCell(it ssa.Value) *Cell {
-	if c, ok := iterCells[it]; ok {
+	if c, ok := f.iterCells[it]; ok {
 		return c
 	}
 	c := f.g.newCell(f.prefix+it.Name()+"_pos", "Int", types.Typ[types.Int])
-	iterCells[it] = c
+	f.iterCells[it] = c
 	return c
 }
 
@@ -687,7 +685,6 @@ type loopInfo struct {
 	havCells map[*Cell]bool
 }
 
-var loopInfos = map[*ssa.BasicBlock]*loopInfo{}
 
 func (f *Frame) loopSpec(h *ssa.BasicBlock) *LoopSpec {
 	if f.spec == nil {
@@ -782,7 +779,7 @@ func (f *Frame) loopHeader(h *ssa.BasicBlock, st *State, reach string) (*State, 
 	}
 	// 3. havoc
 	li := &loopInfo{phiVals: map[*ssa.Phi]Val{}, havocked: map[string]bool{}, havCells: map[*Cell]bool{}}
-	loopInfos[h] = li
+	f.loopInfos[h] = li
 	hs := st.clone()
 	for phi := range entryPhi {
 		nv := g.freshVal(f.name(phi)+"_loop", phi.Type(), hs)
@@ -945,7 +942,7 @@ func (f *Frame) havocNamed(m string, st *State, li *loopInfo, env *Env) {
 
 func (f *Frame) loopBackEdge(from, h *ssa.BasicBlock, cond string, st *State) {
 	g := f.g
-	li := loopInfos[h]
+	li := f.loopInfos[h]
 	spec := f.loopSpec(h)
 	if li == nil || spec == nil {
 		g.fail("%s: back edge to a block that is not a processed loop header", relName(f.fn))
